@@ -147,11 +147,19 @@ class Registry:
         base = f"{caller}/call[{fi.qualname}#{k}]"
         for label, cond in c._requires:
             I.ctx.prove(f"{base}.pre.{label}", cond)
+        def charge_exc():
+            for counter, bound_ in c._ghost_bounds_exc:
+                d = fresh_int("dx_" + counter)
+                I.ctx.assume(z3.And(d >= 0, d <= Z(bound_)))
+                I.ctx.ghost[counter] = simp(Z(I.ctx.ghost.get(counter, 0)) + d)
+
         for exc, when, label in c._raises:
             if when is None:
                 if I.ctx.branch(fresh_bool("mayraise")):
+                    charge_exc()
                     I.raise_(exc)
             elif I.ctx.branch(when):
+                charge_exc()
                 I.raise_(exc)
         for eff in c._effects:
             eff()
@@ -357,6 +365,7 @@ class ContractCtx:
         self._has_returns = False
         self._result_kind = None
         self._ghost_bounds = []
+        self._ghost_bounds_exc = []
         self._expect_covers = []
         self._no_return = False
         self._replay_meta = {}
@@ -420,8 +429,12 @@ class ContractCtx:
     def raises_only(self, names):
         self._raises_only = set(names)
 
-    def ghost_bound(self, counter, bound):
+    def ghost_bound(self, counter, bound, on_raise=None):
+        """counter_after - counter_before <= bound at normal exit; with on_raise (a bound in terms of the INPUTS only) also at every
+        exceptional exit - and call sites then charge on_raise before taking one of the summary's raise outcomes."""
         self._ghost_bounds.append((counter, bound))
+        if on_raise is not None:
+            self._ghost_bounds_exc.append((counter, on_raise))
 
     def loop(self, k, target=None, **ann):
         self.I.local_loops[(target or self.fi.dotted, k)] = ann
